@@ -827,6 +827,10 @@ class Object(base.Symbolic, metaclass=ObjectMeta):
   def sym_lt(self, other: Any) -> bool:
     """Tests symbolic less-than."""
     if type(self) is not type(other):
+      if base._type_order(self) == base._type_order(other):  # pylint: disable=protected-access
+        # Different classes of the same name (e.g. created by a factory
+        # function) cannot be ordered by `pg.lt`, which would call us back.
+        return id(type(self)) < id(type(other))
       return base.lt(self, other)
     return base.lt(self._sym_attributes, other._sym_attributes)  # pylint: disable=protected-access
 
